@@ -69,6 +69,8 @@ def cases(tier, seed):
     for i in range(nm):
         cs.append({'kind': 'manual', 'prog_seed': seed * 17 + i, 'family': '1d' if i % 2 else '2d',
                    'mask_mode': ['binary', 'adversarial', 'allpruned'][i % 3], 'fold': False,
+                   # a standard layer right behind a user-placed searchable one
+                   'plain_consumer': (i // 3) % 4 == 1,
                    'seed': seed * 31 + i})
         cs.append({'kind': 'exclude-type', 'prog_seed': seed * 1000003 + 800000 + i,
                    'family': '1d' if i % 2 else '2d', 'etype': ['linear', 'conv'][(i // 2) % 2],
@@ -165,7 +167,7 @@ def build_case_program(case):
     if k == 'origins':
         return pitgen.cat_origin_program(rng, case['family'], case['kinds'], case['consumer'])
     if k == 'manual':
-        return pitgen.manual_program(rng, case['family'])
+        return pitgen.manual_program(rng, case['family'], bool(case.get('plain_consumer')))
     opts = {'p_fixed_stem': 0.25, 'allow_fixed': True, 'p_two_inputs': 0.25}
     if k == 'hazard':
         opts['hazards'] = HAZARDS
